@@ -17,5 +17,6 @@ CONSTANTS
   FailOdds = 6
   EndOdds = 2
   Weights <- WAll
+  Scripts <- NoScripts
 INVARIANT Emit
 CHECK_DEADLOCK FALSE
